@@ -5,6 +5,7 @@
 From Coq Require Import String.
 From Verif Require Import Base Fmap.
 From Verif.Chain Require Import Chain ChainProofs Zero Emit ComposeIR.
+From Verif.Chain Require ToErrorText.
 Open Scope list_scope.
 
 (* Compose, any number of stages: if stage k is the first to fail (with e) when every earlier
@@ -104,6 +105,18 @@ Theorem C16_toerror_spec :
   (snd (f args) = true -> e = None) /\ (snd (f args) = false -> e = err).
 Proof. exact @toerror_spec. Qed.
 Print Assumptions C16_toerror_spec.
+
+(* ToError, the printed text: the closure carries the parameter names of the user's f; with the
+   names the generator chooses for itself (UnusedName of err, f, success, out<i> against those
+   parameters) every identifier resolves to what it was printed for, whatever the distinct parameter
+   names are (err, f, success, out0, err_ ... included): the text means toerror. *)
+Theorem C16_toerror_text_correct :
+  forall (D E : Type) (ft : nat -> list (@ToErrorText.val D E) -> list (@ToErrorText.val D E) * bool)
+         (ps : list string) (nout : nat) (err : option E) (kf : nat) (args : list (@ToErrorText.val D E)),
+  NoDup ps -> length ps = length args -> length (fst (ft kf args)) = nout ->
+  ToErrorText.run ft (ToErrorText.gen ps nout) err kf args = Some (toerror err (ft kf) args).
+Proof. exact @ToErrorText.gen_correct. Qed.
+Print Assumptions C16_toerror_text_correct.
 
 (* zero values "whatever those types are": the repaired generator (derive.ZeroValue) *)
 Theorem C16_zero_ok : forall t : rty, lit_ok (zero_literal t) t = true.
